@@ -23,7 +23,7 @@ import multiprocessing as mp
 from harness import compare as C
 from harness import transform as T
 from harness.core import MachineryError
-from harness.props.c03 import read_vcat, replay as replay_compare
+from harness.props.c03 import read_vcat
 
 T_INVARIANTS = ('ShapeKept', 'NaNKept', 'RankTheorems', 'RankIdempotent', 'PositiveTheorems', 'MinMaxTheorems',
                 'GeoTheorems', 'GeodesicTheorems', 'CustomTheorems')
